@@ -180,6 +180,30 @@ func runC13(c *Check, a *Analysis) {
 				continue
 			}
 			g, _ := p.guardedBy(s, negate(matchAlive(p)))
+			if !g {
+				// `pc = slot; if dead { pc = dial() }; slot = pc`: what is stored is either what the
+				// slot already holds or a connection dialed because the entry was found dead
+				all := true
+				for _, o := range p.originsFlow(s.Val) {
+					o = p.canon(o)
+					same := false
+					if ld, isLd := o.(*ssa.UnOp); isLd && ld.Op == token.MUL {
+						if ib, isIA := ld.X.(*ssa.IndexAddr); isIA && p.canon(ib.Index) == p.canon(ia.Index) && isLoadOf(p.canon(ib.X), "conns", "Conns") && sameBase(p, ib.X, ia.X) {
+							same = true
+						}
+					}
+					dialed := false
+					if e, isX := o.(*ssa.Extract); isX && e.Index == 0 {
+						if dc, isC := e.Tuple.(*ssa.Call); isC && calleeName(dc) == "(*Transport).newPersistConn" {
+							dialed, _ = p.guardedBy(dc, negate(matchAlive(p)))
+						}
+					}
+					if !same && !dialed {
+						all = false
+					}
+				}
+				g = all
+			}
 			c.Ob("R-DIAL-GUARD", sc.key(gc, "in-place replacement only of a dead entry"), p.InstrPos(s), g, ifs(!g, "an active-list slot is overwritten although its connection may be alive (the old connection leaks open)"))
 		}
 	}
@@ -380,10 +404,15 @@ func runC14(c *Check, a *Analysis) {
 	if addrParam(gc) == "" || addrParam(np) == "" {
 		c.Undecided("R-ADDR", "no addr parameter")
 	}
-	for _, d := range callsIn(gc, "(*Transport).newPersistConn") {
-		ok := isParamNamed(d.Common().Args[1], gc, "addr")
+	eachInstrCtx(gc, func(in, _ ssa.Instruction, res func(ssa.Value) ssa.Value) {
+		d, isC := in.(ssa.CallInstruction)
+		if !isC || calleeName(d) != "(*Transport).newPersistConn" {
+			return
+		}
+		// inside a helper the argument is read as what getConn passed on this call chain
+		ok := isParamNamed(res(d.Common().Args[1]), gc, "addr")
 		c.Ob("R-ADDR", sc.key(gc, "newPersistConn(addr)"), p.InstrPos(d), ok, ifs(!ok, "dialing "+describe(d.Common().Args[1])+" instead of the requested address"))
-	}
+	})
 	eachInstr(np, func(in ssa.Instruction) {
 		cc, ok := in.(*ssa.Call)
 		if !ok || cc.Common().IsInvoke() || cc.Common().StaticCallee() != nil {
@@ -1249,8 +1278,18 @@ func matchErrOf(p *Prog, call *ssa.Call) condMatch {
 			return false, false
 		}
 		isErrOf := func(v ssa.Value) bool {
-			e, ok := v.(*ssa.Extract)
-			return ok && e.Tuple == ssa.Value(call) && e.Index == 1
+			if e, ok := v.(*ssa.Extract); ok && e.Tuple == ssa.Value(call) && e.Index == 1 {
+				return true
+			}
+			// the dial sits in a helper that hands its results on: the caller tests what the helper returns
+			if _, isX := v.(*ssa.Extract); isX && p.isPlainHelper(call.Parent()) {
+				for _, o := range p.origins(v) {
+					if e, ok := o.(*ssa.Extract); ok && e.Tuple == ssa.Value(call) && e.Index == 1 {
+						return true
+					}
+				}
+			}
+			return false
 		}
 		if isErrOf(x) || isErrOf(p.canon(x)) {
 			return true, b.Op == token.EQL
@@ -1424,4 +1463,11 @@ func isRemovalAppend(p *Prog, in ssa.Instruction) bool {
 	}
 	k, isK := constInt(b.Y)
 	return isK && k >= 1 && p.canon(b.X) == p.canon(d.High)
+}
+
+// sameBase: two loads of a field read it from the same object.
+func sameBase(p *Prog, a, b ssa.Value) bool {
+	_, ba, ok1 := fieldOfLoad(p.canon(a))
+	_, bb, ok2 := fieldOfLoad(p.canon(b))
+	return ok1 && ok2 && p.canon(ba) == p.canon(bb)
 }
